@@ -15,7 +15,7 @@ import deribit_lib as L
 from common import Ctx
 
 PROPERTY = "C15"
-LEAN_MODULES = ["Proofs.C15", "Proofs.C15.Seq", "Proofs.C15.Float", "Proofs.C15.Norm", "Proofs.C15.Limit", "Proofs.C15.Sell"]
+LEAN_MODULES = ["Proofs.C15", "Proofs.C15.Seq", "Proofs.C15.Float", "Proofs.C15.Norm", "Proofs.C15.Limit", "Proofs.C15.Sell", "Proofs.C15.Follow"]
 DRIVERS = ["driver_deribit"]
 RULE = ("random books (1-4 instruments, 0-12 levels a side, int and float sizes incl. emptied levels, prices on and off the 0.0005 grid, ETH and BTC "
         "steps; 30 % of the sides as rows in any order with price levels split over several rows; 30 % of the books with an instrument on a binary "
